@@ -222,7 +222,7 @@ func c09Judge(x *explore.Ctx, s *vrt.Sched, l *schedLog, nc *netsim.Conn, server
 			continue
 		}
 		switch c.Name {
-		case "Write(200)", "Write(4)", "ReadMessage":
+		case "Write(200)", "Write(4)", "Write(400)", "ReadMessage":
 			continue // a buffered Write may still succeed; the writer must fail no later than its Close
 		}
 		x.Check(c.Err != nil, key("write-after-close-accepted:"+c.Name), "%s began after the close frame had been written and returned nil", c.Name)
